@@ -106,6 +106,6 @@ Section KeyRoundTrip.
 End KeyRoundTrip.
 
 (* a selector that cannot be represented is rejected at creation and nothing changes *)
-Theorem unrepresentable_selector_rejected m o term out :
-  o_selkey o = None -> create_cluster_cidr m o term out = (m, Err ESelector, []).
+Theorem unrepresentable_selector_rejected m o term boot out :
+  o_selkey o = None -> create_cluster_cidr m o term boot out = (m, Err ESelector, []).
 Proof. intros H. unfold create_cluster_cidr. rewrite H. reflexivity. Qed.
